@@ -90,7 +90,7 @@ KHost(h) == IF "strip_brackets" \in Defects
             ELSE Lower(h)
 \* with the brackets stripped, host and port are simply concatenated
 KHostPort(a) == LET p == PortNF(a.scheme, a.port) IN
-                IF "strip_brackets" \in Defects /\ a.host = "[::1]" /\ p = ":8080" THEN "::1:8080" ELSE <<KHost(a.host), p>>
+                IF "strip_brackets" \in Defects /\ a.host = "[::1]" /\ p = ":8080" THEN <<"::1:8080", "">> ELSE <<KHost(a.host), p>>
 KPct(s) == IF "latin1_unreserved" \in Defects /\ s \in {"q=%E9", "q=%e9"} THEN "q=RAWE9" ELSE PctNF(s)
 KeyOf(a) == [scheme |-> Lower(a.scheme), hostport |-> KHostPort(a), path |-> PathNF(a.path), query |-> KPct(a.query)]
 
